@@ -1,4 +1,30 @@
 // C05 harness translation unit: the instantiations of unit C05_UNIT (see c05_units.inc) of the body in c05_body.h.
 #include "c05_body.h"
 #include "c05_units.inc"
-VH_MAIN()
+
+#include <cstdlib>
+#include <cstring>
+#include <string>
+#include <unistd.h>
+
+// A corrupted column counter (seen: remove_last on an empty matrix in the indexing overlays) makes the library ask for a
+// vector of 2^32 entries; filling 16 GB would take the machine down long before the CPU guard of c05_core.cpp fires.  The
+// harness never needs a single allocation above a few MB (identifiers stay below ~20000), so the sanitizer run-time is told
+// to refuse allocations above 512 MB: the process is re-executed once with max_allocation_size_mb added to ASAN_OPTIONS
+// (the orchestrator's options are kept).  Such a request then ends the case at once with an AddressSanitizer report
+// attributed to the library frame that made it.
+static void c05_limit_allocation_size(char** argv) {
+  const char* cur = getenv("ASAN_OPTIONS");
+  if (cur && strstr(cur, "max_allocation_size_mb")) return;
+  std::string opt = cur ? std::string(cur) + ":" : std::string();
+  opt += "max_allocation_size_mb=512";
+  setenv("ASAN_OPTIONS", opt.c_str(), 1);
+  execv("/proc/self/exe", argv);
+  // exec failed: go on without the limit
+}
+
+extern "C" void __asan_on_error() { ::vh::dump_history_on_fatal(); }
+int main(int argc, char** argv) {
+  c05_limit_allocation_size(argv);
+  return ::vh::run_main(argc, argv);
+}
